@@ -1,9 +1,11 @@
 CFG = {
-    "modules": ["Parsley.Props.C08"],
+    "modules": ["Parsley.Props.C08", "Parsley.Lemmas.ConformsStab"],
     "theorems": [
         "Parsley.C08.conforms_perm_alternatives", "Parsley.C08.Conforms_perm_alternatives",
         "Parsley.C08.conforms_perm_keys", "Parsley.C08.conforms_antitone",
-        "Parsley.C08.conforms_stabilises_partial", "Parsley.C08.machine_eq_conforms_partial",
+        "Parsley.C08.conforms_stabilises_partial", "Parsley.C08.conforms_stabilises",
+        "Parsley.C08.Conforms_iff_conf_card", "Parsley.C08.gfp_eq_conf_card", "Parsley.C08.gfp_iff_Conforms",
+        "Parsley.C08.machine_eq_conforms_partial",
         "Parsley.C08.memo_leak_witness", "Parsley.C08.disjunct_attrs_dropped_witness",
         "Parsley.C08.named_disjunct_witness", "Parsley.C08.selfref_not_null_witness",
         "Parsley.C08.memo_ignores_predicate_witness", "Parsley.C08.any_entry_skips_pred_witness",
@@ -11,27 +13,30 @@ CFG = {
     ],
     "partial": {
         "Parsley.C08.machine_eq_conforms_partial":
-            "machine verdict = declarative verdict is PROVED only on the leaf fragment (non-reference object, any/primitive "
-            "check without predicate, all three indirection requirements); compound types, references, predicates and "
-            "disjunctions are covered by the correspondence run and the bounded-exhaustive oracle search only; the machine is "
-            "known to differ from the specification in 4 classes (known_findings.json)",
-        "Parsley.C08.conforms_stabilises_partial":
-            "proved: the chain of unfoldings decreases and, once two consecutive levels agree, is constant; not proved: that "
-            "this happens within |pairs| levels (the judge iterates the table to a fixed point on every case)",
+            "machine verdict (code as it is) = declarative verdict is PROVED on the leaf fragment: every graph, EVERY object "
+            "(references incl. chains, undefined and cyclic ones; compound objects) against any/primitive checks with ANY "
+            "predicate and ANY indirection requirement; array/dictionary/stream/disjunction/named nodes are covered by the "
+            "correspondence run and the bounded-exhaustive oracle search only (the oracle itself is proved to decide Conforms: "
+            "gfp_iff_Conforms); with disjunctions the machine is known to differ from the specification (memo leak, "
+            "known_findings.json)",
     },
     "n": {"quick": 3000, "thorough": 60000},
     "exhaustive": {"quick": False, "thorough": True},
     "shrink": False,
-    "rule": "corpus (every section-4 defect and the four witnesses); exhaustive small: every one/two-level specification over a menu "
+    "rule": "corpus (every section-4 defect, the witnesses, cycles through a disjunction-typed edge); exhaustive small: every one/two-level specification over a menu "
             "of 9 leaf checks (5 in quick) x 39 objects over a 4-object graph with sharing, equal duplicates, an undefined and a "
             "self reference; random: specs of depth <= 3 from all constructors (named recursive types, predicates, indirect "
             "requirements) x graphs of <= 3 random objects + objects fitted to the spec (60%) or random (40%); non-trivial = "
-            "compound specification or compound/reference object",
+            "compound specification or compound/reference object; + n/10 cyclic container graphs whose cycle passes through a "
+            "disjunction-typed edge (kids typed leaf|node|tmpl by name)",
     "trusted_base": COMMON_TB + [
         "modelled, not verified: BTreeSet/BTreeMap/VecDeque/Rc semantics (memo as a list with the derived structural equality; "
         "predicate identity = structural equality of the model predicate: the harness interns predicates)",
         "the declarative reading Spec/Conforms.lean (greatest fixed point of confStep) is the definition of `conforms`",
-        "verif hooks C08-00 (DictEntry/DictStarEntry constructors, work-loop counter); harness decoder harness/src/tc_common.rs",
+        "verif hooks C08-00 (DictEntry/DictStarEntry constructors, work-loop counter); harness decoder harness/src/tc_common.rs "
+        "(cases run in a worker process under a watchdog: `hang` after 8 s, `crash:<rc>` if the worker dies)",
+        "reference chasing: the Rust loop with a visited set is modelled by a fuel-bounded chase (fuel = definitions + 1); equal on "
+        "graphs with unique ids (argument in Model/TypeCheck.lean), exercised by the correspondence run",
     ],
     "assumptions": [
         "specifications have no empty disjunction (the code panics with unreachable!(); such cases are skipped by the judge)",
@@ -42,10 +47,12 @@ LEVEL = {
     "technique": "Lean 4 theorems over a faithful small-step model of check_type + declarative greatest-fixed-point oracle + "
                  "differential correspondence (verdict and error kind) with the real check_type",
     "text": "Machine-checked: order-independence of alternatives and of dictionary entries for the declarative conformance relation "
-            "(all specs/objects/depths), monotonicity and limit behaviour of its unfolding chain, machine = specification on the "
-            "leaf fragment (partial), and eight witness theorems. The model mirrors get_next_check/unwind/push_checks/return_check, "
+            "(all specs/objects/depths), monotonicity of its unfolding chain and stabilisation within |pairs| levels on the finite "
+            "universe of a case (conforms_stabilises), hence the executable oracle of the judge decides Conforms exactly "
+            "(gfp_iff_Conforms); machine = specification on the leaf fragment with predicates, indirection requirements and "
+            "arbitrary reference chains (partial), and nine witness theorems. The model mirrors get_next_check/unwind/push_checks/return_check, "
             "the memo and every per-type case, one flag per defect; it agrees with the real code on verdict and error kind on every "
-            "generated case. Ten defects were found; six are repaired by pending patches C08-01..06, four remain as known findings "
-            "(memo leak across alternatives, attributes of a disjunction dropped, disjunction behind a name, reference cycle not null) "
-            "with an executable single-repair classifier and witness theorems.",
+            "generated case. Eleven defects were found; nine are repaired (commits C08-01..09 in /repo), two remain as known findings "
+            "(memo leak across alternatives of a disjunction; Any-typed entry with an indirect requirement skipped, asserted by a "
+            "test of the crate) with an executable single-repair classifier and witness theorems.",
 }
